@@ -26,6 +26,7 @@ import pipeline
 import resp
 import xsw
 import xswdoc
+import c01ids
 from xswdoc import ASSERTION, RESPONSE, SIG, ENCASSERTION, ALGS
 from pipeline import SPCase
 from core import Exn, call, cstr, cbool, copt, clist
@@ -34,7 +35,7 @@ from saml2_tophat import saml, samlp, sigver, class_name, extension_elements_to_
 from saml2_tophat import BINDING_HTTP_POST, BINDING_SOAP
 
 CLAIM = {
-    "text": "Coq theorems (Props/C01.v, all closed under the global context) about Model/Xsw.v: symbolic documents of unbounded size (elements and ds:Signature nodes that record, per Reference, the URI and the digested content itself, the signing key and whether the value is intact), the node selection of `xmlsec1 --verify --id-attr:ID <name> [--node-id <id>]` as the stand-in tool implements it (registered IDs, first ds:Signature in document order at or below the start node, references resolved through registered IDs, enveloped removal, key from the command line) for all three duplicate-ID policies (fail / first / last), and the pre-check sigver._enveloped_signature_ok that the PROPOSED repair proposed_fix/C01-1.diff adds to SecurityContext._check_signature (the committed check expects /repo + that diff). Proved by induction over trees and paths: C01_relied_is_covered - whenever _check_signature's decision (pre-check and some candidate certificate verifies) is positive, the ID is non-empty, exactly one node of the whole document carries it and it is the element X of the asked name, X has exactly one Signature child, that child is the first signature in document order inside X (the one the tool processed), it has the single reference '#'+ID, an intact value under a key of the candidate certificates, and the digested content is exactly X minus that child; C01_verify_ok_covered - what a positive answer of the tool alone means (nothing ties the referenced elements to the start node); C01_mutation_rejected / C01_accepted_content_was_signed - for ANY document assembled from parts of a document d0, arbitrary new elements and IDs, signatures not valid under a protected key and re-dressed copies of d0's signatures (this closure contains every edit / move / copy / wrap / nest / relocate / duplicate-signature / duplicate-ID mutation of the quantifier), acceptance implies that the element relied upon minus its signature child is a content a protected key signed in d0 under that same ID (C01_mutations_compose: the closure is reflexive and transitive, so sequences of mutations are covered); C01_pipeline_relied_covered and C01_identity_from_processed_assertions - composed with C02's accept_iff over the SP pipeline model: an accepted response has every signature pysaml2 saw covering its element, want_response_signed => the response element is covered, want_assertions_signed => every assertion the application reads (plain or decrypted) is covered, want_assertions_or_response_signed => one of the two, and the assertions handed to the application are among those processed, UNDER THE HYPOTHESIS that a recorded positive verdict was produced by _check_signature on the text handed to the tool with that element's name and ID; C01_before_fix_refuted + 7 more wrapping shapes - without the pre-check (the code of /repo before the repair) the statement is false: a wrapped document assembled from a genuine one is accepted with an element that is not covered, under every duplicate-ID policy. ONLY TESTED (every run): that model and code agree - unit tool_verify (model vs SecurityContext.verify_signature through the stand-in tool) and unit check_item (model vs correctly_signed_response / check_signature on the received and on the re-serialised decrypted text) on genuine and mutated real documents; the composition hypothesis and 'the identity is read from the covered element' - by the end-to-end oracle (accepted => name id, attributes, session expiry, InResponseTo of the signed original; all 8 requirement settings, 3 tool policies, 5 RSA-SHA algorithms, plain and encrypted, further configuration switches) and by re-checking every positive _check_signature verdict on the real XML with real digests and RSA; that the library's own signed output passes the pre-check.",
+    "text": "Coq theorems (Props/C01.v, all closed under the global context) about Model/Xsw.v: symbolic documents of unbounded size (elements and ds:Signature nodes that record, per Reference, the URI and the digested content itself, the signing key and whether the value is intact), the node selection of `xmlsec1 --verify --id-attr:ID <name> [--node-id <id>]` as the stand-in tool implements it (registered IDs, first ds:Signature in document order at or below the start node, references resolved through registered IDs, enveloped removal, key from the command line) for all three duplicate-ID policies (fail / first / last), and the pre-check sigver._enveloped_signature_ok that the PROPOSED repair proposed_fix/C01-1.diff adds to SecurityContext._check_signature (the committed check expects /repo + that diff). Proved by induction over trees and paths: C01_relied_is_covered - whenever _check_signature's decision (pre-check and some candidate certificate verifies) is positive, the ID is non-empty, exactly one node of the whole document carries it and it is the element X of the asked name, X has exactly one Signature child, that child is the first signature in document order inside X (the one the tool processed), it has the single reference '#'+ID, an intact value under a key of the candidate certificates, and the digested content is exactly X minus that child; C01_verify_ok_covered - what a positive answer of the tool alone means (nothing ties the referenced elements to the start node); C01_mutation_rejected / C01_accepted_content_was_signed - for ANY document assembled from parts of a document d0, arbitrary new elements and IDs, signatures not valid under a protected key and re-dressed copies of d0's signatures (this closure contains every edit / move / copy / wrap / nest / relocate / duplicate-signature / duplicate-ID mutation of the quantifier), acceptance implies that the element relied upon minus its signature child is a content a protected key signed in d0 under that same ID (C01_mutations_compose: the closure is reflexive and transitive, so sequences of mutations are covered); C01_pipeline_relied_covered and C01_identity_from_processed_assertions - composed with C02's accept_iff over the SP pipeline model: an accepted response has every signature pysaml2 saw covering its element, want_response_signed => the response element is covered, want_assertions_signed => every assertion the application reads (plain or decrypted) is covered, want_assertions_or_response_signed => one of the two, and the assertions handed to the application are among those processed, UNDER THE HYPOTHESIS that a recorded positive verdict was produced by _check_signature on the text handed to the tool with that element's name and ID; C01_before_fix_refuted + 7 more wrapping shapes - without the pre-check (the code of /repo before the repair) the statement is false: a wrapped document assembled from a genuine one is accepted with an element that is not covered, under every duplicate-ID policy. THE IDENTIFIER ITSELF (Model/XswIds.v): C01_item_id_is_literal_ID - for every well-formed attribute table the id the object gets from SamlBase's table walk is the literal, unqualified ID attribute the tool and the pre-check read, whatever look-alikes (saml:ID, samlp:ID, xml:id, Id, id) stand before or after it (C01_item_id_ignores_look_alikes; a reader by local name is refuted); C01_one_identifier - _check_signature hands ONE variable to the pre-check and to the tool (check_signature_g with both hand-overs the identity is check_signature_x); C01_relied_is_covered_same_identifier - any treatment of the id on the way keeps the statement while both sides get the same string and it is still item.id; C01_tool_side_normalisation_refuted / C01_precheck_side_normalisation_refuted - as soon as one side trims, a forged element is accepted and not covered. ONLY TESTED (every run): that the argv the library really passes to the tool has --node-id byte-for-byte item.id, --id-attr ID, the octets of the text the object was parsed from, and that the pre-check run before it was given that same id string, node name, attribute name and octets and answered True (recording wrapper around the stand-in tool and sigver._enveloped_signature_ok, on every _check_signature run of the units and of the end-to-end runs; oracle keys handed-over:*), that item.id is the literal ID attribute of the element the object came from (item-id-not-literal-ID:*; unit item_id model vs real object on every distinct attribute table), on documents that include look-alike ID attributes carrying the genuine ID on forged elements and literal IDs that differ from the genuine one only by white space / case / compatibility form with a worthless own first signature in front of the nested genuine element; that model and code agree - unit tool_verify (model vs SecurityContext.verify_signature through the stand-in tool) and unit check_item (model vs correctly_signed_response / check_signature on the received and on the re-serialised decrypted text) on genuine and mutated real documents; the composition hypothesis and 'the identity is read from the covered element' - by the end-to-end oracle (accepted => name id, attributes, session expiry, InResponseTo of the signed original; all 8 requirement settings, 3 tool policies, 5 RSA-SHA algorithms, plain and encrypted, further configuration switches) and by re-checking every positive _check_signature verdict on the real XML with real digests and RSA; that the library's own signed output passes the pre-check.",
     "note": "Partial w.r.t. the real xmlsec1 (not installed): the tool semantics are those of the stand-in (DESIGN.md 4.3); xml:id / DTD-declared IDs are not modelled (the pre-check counts ID carriers over all elements whatever their name). Trusted: Coq kernel + vm_compute; symbolic cryptography (a digest is its preimage, a valid signature value implies the key owner signed that SignedInfo); the symbolic twin of real documents (harness/xswdoc.py). On /repo WITHOUT proposed_fix/C01-1.diff the check reports the signature-wrapping defect (F6): e.g. 'wrap-assertion:Extensions:orig-stripped:new-id' is accepted with the forged identity. Advice assertions are outside Model/Response.v; metadata verification (mdstore) does not go through _check_signature.",
     "technique": "machine-checked proof (Coq, induction over document trees and paths; Dolev-Yao closure for the mutation quantifier) + correspondence on real signed and mutated documents + implementation-level oracles",
 }
@@ -44,6 +45,7 @@ TRUSTED = [
     "the symbolic twin (harness/xswdoc.py sym): element name, ID, all other attributes + text + tails interned as payload, children; tied to the tool by the unit tool_verify",
 ]
 ASSUMPTIONS = [
+    "one identifier: the string given to the tool as --node-id, the string given to the pre-check and item.id are the same string, and the tool is given the octets the object was parsed from (tested on every _check_signature run by the recorded argv / pre-check arguments, oracle keys handed-over:*; not proved - the argv reaches the real xmlsec1 unchanged is trusted)",
     "composition: the object pysaml2 relies on (item) was parsed from an element of the text handed to the tool and item.id is that element's ID attribute; by the proved uniqueness of that ID the element is the covered one (tested by unit check_item and the end-to-end oracle, not proved)",
 ]
 RULE = ("documents = {5 RSA-SHA algorithms} x {response, assertion, both signed} x {plain, encrypted} x (genuine + mutation catalogue + random placements); "
@@ -105,6 +107,19 @@ def build_documents(ctx):
                 rest = [m for m in muts if m not in keep]
                 muts = keep + ctx.rng.sample(rest, min(len(rest), 14))
             muts += xswdoc.random_placements(ctx.rng, g, level, (24 if full else 6) * (1 if ctx.quick else 6))
+            # ---- the identifier itself: look-alike ID attributes (object vs text), normalisation on the tool side
+            ida = c01ids.identifier_differentials(g, level, ctx.rng, thin=(False if not ctx.quick else ("partly" if full and level != "both" else True)))
+            idb = c01ids.tool_side_normalisation(g, level)
+            if not full:
+                ida = ctx.rng.sample(ida, min(len(ida), 6))
+                idb = ctx.rng.sample(idb, min(len(idb), 6))
+            muts += ida + idb
+            if full:
+                # a genuine message whose IDs are upper case: the other-case look-alike is then the LOWER case one
+                gu = xswdoc.genuine(rs, as_, alg=alg, rid="R-9", aid="A-9")
+                docs.append(Doc("genuine", level, alg[0], gu, False, "genuine", None))
+                muts += [(m[0] + ":upper-case-genuine-ids", m[1]) for m in c01ids.tool_side_normalisation(gu, level)
+                         if ":other-case:" in m[0] or ":trailing-space:" in m[0]]
             if full or level != "both":
                 for lv in (["response", "assertion"] if level == "both" else [level]):
                     muts += xswdoc.signed_near_misses(lv, alg) if level != "both" else []
@@ -252,7 +267,8 @@ def run(ctx):
     env.tool_inprocess(True)
     saved_pol = os.environ.get("PV_XMLSEC_DUP")
     try:
-        with env.Clock(NOW):
+        with env.Clock(NOW), c01ids.Recorder() as rec:
+            ctx.rec = rec
             _run(ctx)
     finally:
         if saved_pol is None:
@@ -268,6 +284,7 @@ def _run(ctx):
     sp2 = two_cert_sp()                                   # metadata: idp -> [other, idp] (the loop over candidates)
     cert_files = {"idp": env.cert("idp"), "other": env.cert("other")}
     tool_cases, item_cases = [], []
+    attr_tables = {}
     texts_seen = set()
     for di, d in enumerate(docs):
         texts = [(d.xml, "as-sent")]
@@ -305,9 +322,24 @@ def _run(ctx):
             # ---- unit check_item + statement oracle
             qs, got = [], []
             for item, nm, px, what in items_of(text):
+                # the object's identifier is the literal ID attribute of the element it was parsed from
+                lit = c01ids.element_at(root, px).get("ID")
+                table = c01ids.attr_table(c01ids.element_at(root, px))
+                if table not in attr_tables:
+                    attr_tables[table] = [item.id, lit]
+                elif attr_tables[table] != [item.id, lit]:
+                    attr_tables[(table, len(attr_tables))] = [item.id, lit]      # same table, another reading: keep both
+                ctx.count("item-id:%s" % ("literal-ID" if item.id == lit else "DIFFERS"))
+                if item.id != lit:
+                    ctx.oracle_fail("item-id-not-literal-ID:%s:%s:%s" % (what, d.level, d.name),
+                                    "the %s object parsed from '%s' (%s) has id %r, the element's literal ID attribute is %r (attributes %r)"
+                                    % (what, d.name, stage, item.id, lit, sorted(c01ids.element_at(root, px).attrib)),
+                                    dict(unit="ident", doc=d.name, level=d.level, alg=d.alg, encrypted=d.encrypted, stage=stage, what=what,
+                                         policy="fail", xml=d.xml))
                 for spx, certs, cnames in ((sp1, [1], ["idp"]), (sp2, [3, 1], ["other", "idp"])):
                     for pol in pols:
                         set_policy(pol)
+                        ctx.rec.reset()
                         if not item.signature:
                             v = "unsigned"
                         elif what == "response":
@@ -316,6 +348,13 @@ def _run(ctx):
                         else:
                             r = call(spx.sec.check_signature, item, nm, text)
                             v = not isinstance(r, Exn) and bool(r)
+                        # what the library really handed to the pre-check and to the tool for this object
+                        ctx.count("tool-runs-audited", len(ctx.rec.tool))
+                        for tag, msg in c01ids.audit(ctx.rec, item.id, nm, text, know_item=True):
+                            ctx.oracle_fail("handed-over:%s:%s:%s:%s" % (tag, what, d.level, d.name),
+                                            "checking the %s of '%s' (%s, tool policy %s): %s" % (what, d.name, stage, pol, msg),
+                                            dict(unit="ident", doc=d.name, level=d.level, alg=d.alg, encrypted=d.encrypted, stage=stage, what=what,
+                                                 policy=pol, xml=d.xml))
                         got.append(verdict(v))
                         qs.append("(%d, %s, %d, %s)" % (POLN[pol], clist(px, lambda k: "%d%%nat" % k), xswdoc.node_name_n(nm), clist(certs, str)))
                         ctx.count("check_item:%s:%s" % (what, v))
@@ -333,6 +372,17 @@ def _run(ctx):
                                        show=dict(doc=d.name, level=d.level, alg=d.alg, stage=stage, queries=len(qs))))
     ctx.correspond("tool_verify", "Model.Xsw", "show_tool_multi", "(tree * list (N * N * option str * N))", tool_cases, shard=40)
     ctx.correspond("check_item", "Model.Xsw", "show_check_items", "(tree * list (N * path * N * list N))", item_cases, shard=40)
+    # ---- unit item_id: the attribute tables of the real elements; model (SamlBase's table walk, the literal ID) vs
+    #      the id of the real object and the literal ID attribute the parser of the pre-check delivers
+    keys = list(attr_tables)
+    id_cases = []
+    for i in range(0, len(keys), 40):
+        chunk = keys[i:i + 40]
+        tabs = [k[0] if (len(k) == 2 and isinstance(k[1], int)) else k for k in chunk]
+        id_cases.append(dict(id=len(id_cases), coq=clist(tabs, c01ids.coq_attr_table), impl=[attr_tables[k] for k in chunk],
+                             show=dict(tables=len(chunk), first=[list(a) for a in tabs[0]])))
+    ctx.count("item_id:attribute-tables", len(keys))
+    ctx.correspond("item_id", "Model.XswIds", "show_item_ids", "(list (list (option str * str * str)))", id_cases)
     oracle_pipeline(ctx, docs)
     unit_library_output(ctx)
 
@@ -357,14 +407,23 @@ def oracle_pipeline(ctx, docs):
         full = (d.alg == ALGS[main][0]) or not ctx.quick
         required = {"response": (True, False, False), "assertion": (False, True, False), "both": (True, True, False)}[d.level]
         settings = SETTINGS if full else [required, (False, False, True), ctx.rng.choice(SETTINGS)]
+        if full and ctx.quick and d.name.startswith("id-"):
+            # the identifier families: each single requirement and the document's own one (quick tier)
+            settings = sorted(set([(True, False, False), (False, True, False), (False, False, True), required]))
         root = xswdoc.parse_text(d.xml)
         dup = has_dup_ids(root)
         for st in settings:
             case = SPCase(wrs=st[0], was=st[1], waors=st[2])
             for pol in (POLICIES if (dup or d.kind == "genuine") else ["fail"]):
                 set_policy(pol)
+                ctx.rec.reset()
                 got = resp.observe(case.sp(), d.xml)
                 acc = isinstance(got, list)
+                ctx.count("pipeline:tool-runs-audited", len(ctx.rec.tool))
+                for tag, msg in c01ids.audit(ctx.rec):
+                    ctx.oracle_fail("handed-over:%s:pipeline:%s:%s" % (tag, d.level, d.name),
+                                    "'%s' through parse_authn_request_response under %s (tool policy %s): %s" % (d.name, st, pol, msg),
+                                    dict(unit="ident-pipeline", doc=d.name, level=d.level, alg=d.alg, encrypted=d.encrypted, setting=st, policy=pol, xml=d.xml))
                 ctx.count("pipeline:%s:%s" % (d.kind, "accepted" if acc else "rejected"))
                 ctx.nontriv((d.name, d.level, d.alg, d.encrypted, st, pol))
                 if d.kind == "genuine":
@@ -516,7 +575,39 @@ def replay(ctx, payload):
     try:
         with env.Clock(NOW):
             set_policy(inp.get("policy", "fail"))
-            if inp.get("unit") == "check_item":
+            if inp.get("unit") in ("ident", "ident-pipeline"):
+                with c01ids.Recorder() as rec:
+                    if inp.get("unit") == "ident":
+                        sp1 = SPCase(wrs=True, was=True).sp()
+                        text = xml if inp.get("stage") != "decrypted" else decrypted_text(sp1, xml)
+                        root = xswdoc.parse_text(text)
+                        for item, nm, px, what in items_of(text):
+                            if what != inp.get("what"):
+                                continue
+                            lit = c01ids.element_at(root, px).get("ID")
+                            print("%s object: id %r, literal ID attribute of its element %r" % (what, item.id, lit))
+                            bad += 1 if item.id != lit else 0
+                            if item.signature:
+                                rec.reset()
+                                r = call(sp1.sec.correctly_signed_response, text) if what == "response" else call(sp1.sec.check_signature, item, nm, text)
+                                print("_check_signature:", "refused (%s)" % (r,) if isinstance(r, Exn) else "accepted")
+                                for t in rec.tool:
+                                    print("tool argv:", t["argv"][1:-1])
+                                for q in rec.pre:
+                                    print("pre-check given: node_name=%r node_id=%r id_attr=%r -> %r" % (q.get("node_name"), q.get("node_id"), q.get("id_attr"), q.get("result")))
+                                for tag, msg in c01ids.audit(rec, item.id, nm, text, know_item=True):
+                                    print("VIOLATED %s: %s" % (tag, msg))
+                                    bad += 1
+                    else:
+                        st = inp.get("setting") or (True, True, False)
+                        got = resp.observe(SPCase(wrs=st[0], was=st[1], waors=st[2]).sp(), xml)
+                        print("implementation outcome:", got)
+                        for t in rec.tool:
+                            print("tool argv:", t["argv"][1:-1])
+                        for tag, msg in c01ids.audit(rec):
+                            print("VIOLATED %s: %s" % (tag, msg))
+                            bad += 1
+            elif inp.get("unit") == "check_item":
                 sp1 = SPCase(wrs=True, was=True).sp()
                 text = xml if inp.get("stage") != "decrypted" else decrypted_text(sp1, xml)
                 for item, nm, px, what in items_of(text):
